@@ -82,7 +82,7 @@ halts — in EXACTLY the state it had before the call: none of the child's EVM w
 value transfer), logs or journal entries remain.  Swallowing the failure (`try/catch`) does not keep anything. -/
 theorem frame_failure_restores (fuel : Nat) (ro : Bool) (gas : Nat) (h : CallHdr N) (body rest : List (Prog N)) (s : St N)
     (hc : Clean body)
-    (hpre : ¬ (gas < h.callc ∨ (ro = true ∧ h.xfer.isSome = true)))
+    (hpre : ¬ (gas < h.callc ∨ (ro = true ∧ h.xfer.isSome = true))) (hfund : h.unfunded s.native = false)
     (hne : (exec fuel (ro || h.kind == .staticcall) (fwdGas h gas + h.stip) body (s.enter h)).1 ≠ .ok)
     (hna : (exec fuel (ro || h.kind == .staticcall) (fwdGas h gas + h.stip) body (s.enter h)).1 ≠ .abort) :
     exec (fuel + 1) ro gas (.call h body :: rest) s =
@@ -93,7 +93,7 @@ theorem frame_failure_restores (fuel : Nat) (ro : Bool) (gas : Nat) (h : CallHdr
   have hext : Ext s (exec fuel (ro || h.kind == .staticcall) (fwdGas h gas + h.stip) body (s.enter h)).2.1 :=
     (ext_enter s h).trans ((exec_good _ _ _ _ _ hc).2.2.1 hna)
   have hr := revertTo_of_ext hext
-  simp only [exec, hpre, ↓reduceIte, resolve, hne, hna, hr]
+  simp only [exec, hpre, hfund, Bool.false_eq_true, ↓reduceIte, resolve, hne, hna, hr]
   generalize exec fuel (ro || h.kind == .staticcall) (fwdGas h gas + h.stip) body (s.enter h) = r
   by_cases h1 : keepGas h gas + (if r.1 = .revert then r.2.2 else 0) < h.pFail
   · simp [h1]
@@ -102,15 +102,29 @@ theorem frame_failure_restores (fuel : Nat) (ro : Bool) (gas : Nat) (h : CallHdr
 /-- atomicity at frame level, success half: if the child returns normally the caller goes on with the child's complete
 final state — its EVM writes and its native effects together -/
 theorem frame_success_keeps (fuel : Nat) (ro : Bool) (gas : Nat) (h : CallHdr N) (body rest : List (Prog N)) (s : St N)
-    (hpre : ¬ (gas < h.callc ∨ (ro = true ∧ h.xfer.isSome = true)))
+    (hpre : ¬ (gas < h.callc ∨ (ro = true ∧ h.xfer.isSome = true))) (hfund : h.unfunded s.native = false)
     (hok : (exec fuel (ro || h.kind == .staticcall) (fwdGas h gas + h.stip) body (s.enter h)).1 = .ok) :
     exec (fuel + 1) ro gas (.call h body :: rest) s =
       (let r := exec fuel (ro || h.kind == .staticcall) (fwdGas h gas + h.stip) body (s.enter h)
        if keepGas h gas + r.2.2 < h.pOk then (.fail, r.2.1, 0)
        else exec fuel ro (keepGas h gas + r.2.2 - h.pOk) rest r.2.1) := by
-  simp only [exec, hpre, ↓reduceIte, resolve, hok]
+  simp only [exec, hpre, hfund, Bool.false_eq_true, ↓reduceIte, resolve, hok]
   generalize exec fuel (ro || h.kind == .staticcall) (fwdGas h gas + h.stip) body (s.enter h) = r
   by_cases h1 : keepGas h gas + r.2.2 < h.pOk <;> simp [h1]
+
+/-- a call that attaches more value than the caller holds never starts: the caller goes on (or bubbles up) in exactly its
+pre-call state and gets back all the gas it handed over, stipend included -/
+theorem unfunded_call_leaves_no_trace (fuel : Nat) (ro : Bool) (gas : Nat) (h : CallHdr N) (body rest : List (Prog N)) (s : St N)
+    (hpre : ¬ (gas < h.callc ∨ (ro = true ∧ h.xfer.isSome = true))) (hfund : h.unfunded s.native = true) :
+    exec (fuel + 1) ro gas (.call h body :: rest) s =
+      (let g3 := keepGas h gas + (fwdGas h gas + h.stip)
+       if g3 < h.pFail then (.fail, s, 0)
+       else if h.swallow then exec fuel ro (g3 - h.pFail) rest s else (.revert, s, g3 - h.pFail)) := by
+  have hr := revertTo_of_ext (Ext.refl s)
+  simp only [exec, hpre, hfund, ↓reduceIte, resolve, reduceCtorEq, hr]
+  by_cases h1 : keepGas h gas + (fwdGas h gas + h.stip) < h.pFail
+  · simp [h1]
+  · by_cases h2 : h.swallow = true <;> simp [h1, h2]
 
 /-- a panic that nothing recovers unwinds every frame; the transaction commits nothing -/
 theorem panic_drops_transaction (fuel gas : Nat) (p : List (Prog N)) (v : View N)
@@ -124,7 +138,7 @@ continues or halts in exactly its pre-call state, and all forwarded gas is gone 
 theorem failed_precompile_call_leaves_no_trace (fuel : Nat) (ro : Bool) (gas : Nat) (h : CallHdr N) (req : Nat)
     (sh : RunShape) (out : N → N) (inner : List (Nat × List (Prog N))) (act : ActionX N) (rest : List (Prog N)) (s : St N)
     (hsh : sh.clean = true) (hinner : ∀ x ∈ inner, Clean x.2)
-    (hpre : ¬ (gas < h.callc ∨ (ro = true ∧ h.xfer.isSome = true)))
+    (hpre : ¬ (gas < h.callc ∨ (ro = true ∧ h.xfer.isSome = true))) (hfund : h.unfunded s.native = false)
     (hfail : (runPre (exec fuel) ro (h.kind != .call) (fwdGas h gas + h.stip) req sh out inner act (s.enter h)).1 = .fail) :
     exec (fuel + 1) ro gas (.pre h req sh out inner act :: rest) s =
       (if keepGas h gas < h.pFail then (.fail, s, 0)
@@ -136,7 +150,7 @@ theorem failed_precompile_call_leaves_no_trace (fuel : Nat) (ro : Bool) (gas : N
     rw [hfail]; decide
   have hext := (ext_enter s h).trans (hg.2.2.1 hna)
   have hr := revertTo_of_ext hext
-  simp only [exec, hpre, ↓reduceIte, resolve, hfail, hr]
+  simp only [exec, hpre, hfund, Bool.false_eq_true, ↓reduceIte, resolve, hfail, hr]
   simp only [reduceCtorEq, ↓reduceIte, Nat.add_zero]
   by_cases h1 : keepGas h gas < h.pFail
   · simp [h1]
@@ -146,13 +160,13 @@ theorem failed_precompile_call_leaves_no_trace (fuel : Nat) (ro : Bool) (gas : N
 `RequiredGas`, or the keeper part returns an error (after any writes and logs) -/
 theorem failed_native_action_leaves_no_trace (fuel : Nat) (ro : Bool) (gas : Nat) (h : CallHdr N) (req : Nat)
     (sh : RunShape) (out : N → N) (act : ActionX N) (rest : List (Prog N)) (s : St N) (hsh : sh.clean = true)
-    (hpre : ¬ (gas < h.callc ∨ (ro = true ∧ h.xfer.isSome = true)))
+    (hpre : ¬ (gas < h.callc ∨ (ro = true ∧ h.xfer.isSome = true))) (hfund : h.unfunded s.native = false)
     (hfail : fwdGas h gas + h.stip < req ∨
       (act (h.kind != .call) (fwdGas h gas + h.stip - req) (s.enter h).native).1 = .err) :
     exec (fuel + 1) ro gas (.pre h req sh out [] act :: rest) s =
       (if keepGas h gas < h.pFail then (.fail, s, 0)
        else if h.swallow then exec fuel ro (keepGas h gas - h.pFail) rest s else (.revert, s, keepGas h gas - h.pFail)) := by
-  apply failed_precompile_call_leaves_no_trace fuel ro gas h req sh out [] act rest s hsh (by simp) hpre
+  apply failed_precompile_call_leaves_no_trace fuel ro gas h req sh out [] act rest s hsh (by simp) hpre hfund
   have hb : sh.outerBefore = false ∧ sh.evmAfterWrite = false := by
     simp only [RunShape.clean, Bool.and_eq_true, Bool.not_eq_true'] at hsh
     exact ⟨hsh.1.1, hsh.2⟩
@@ -168,7 +182,7 @@ logs) to the state the caller goes on with — journaled, so that it is undone a
 (`journal_undo`) -/
 theorem successful_native_action_kept (fuel : Nat) (ro : Bool) (gas : Nat) (h : CallHdr N) (req : Nat)
     (sh : RunShape) (out : N → N) (act : ActionX N) (rest : List (Prog N)) (s : St N) (hsh : sh.clean = true)
-    (hpre : ¬ (gas < h.callc ∨ (ro = true ∧ h.xfer.isSome = true)))
+    (hpre : ¬ (gas < h.callc ∨ (ro = true ∧ h.xfer.isSome = true))) (hfund : h.unfunded s.native = false)
     (hgas : ¬ fwdGas h gas + h.stip < req)
     (hact : (act (h.kind != .call) (fwdGas h gas + h.stip - req) (s.enter h).native).1 = .ok)
     (hpost : ¬ keepGas h gas + (fwdGas h gas + h.stip - req) < h.pOk) :
@@ -181,7 +195,7 @@ theorem successful_native_action_kept (fuel : Nat) (ro : Bool) (gas : Nat) (h : 
     simp only [RunShape.clean, Bool.and_eq_true, Bool.not_eq_true'] at hsh
     exact ⟨hsh.1.1, hsh.2⟩
   cases hoa : sh.outerAfter <;>
-  simp [exec, hpre, resolve, runPre, hgas, hb.1, hb.2, runClosure, runInner, St.keeper,
+  simp [exec, hpre, hfund, resolve, runPre, hgas, hb.1, hb.2, runClosure, runInner, St.keeper,
     hact, hpost, hoa, St.poke]
 
 /-! ## none of the three shape conditions can be dropped, and the order of the statements decides
@@ -190,7 +204,7 @@ Each theorem builds, for an arbitrary native store and arbitrary writes, a trans
 the native store was dropped by the EVM — and the store that is committed is nevertheless the written one. -/
 
 def hdr0 (sw : Bool) : CallHdr N :=
-  { callc := 0, cap := 1000, stip := 0, kind := .call, xfer := none, swallow := sw, pOk := 0, pFail := 0 }
+  { callc := 0, cap := 1000, stip := 0, kind := .call, xfer := none, funded := fun _ => true, swallow := sw, pOk := 0, pFail := 0 }
 def okAct (f : N → N) : ActionX N := fun _ _ n => (.ok, f n, [])
 def errAct : ActionX N := fun _ _ n => (.err, n, [])
 def panicAct (f : N → N) : ActionX N := fun _ _ n => (.panic, f n, [])
@@ -200,7 +214,7 @@ transfer is attempted): the action fails, the call fails, the transaction fails 
 theorem outer_write_survives_failed_tx (v : View N) (out : N → N) :
     runTx 5 1000 [.pre (hdr0 false) 0 { RunShape.tidy with outerBefore := true } out [] errAct] v =
       (.revert, { v with native := out v.native }, 15) := by
-  simp [runTx, exec, resolve, runPre, runClosure, runInner, St.keeper, St.poke, St.enter, hdr0, errAct, fwdGas, keepGas,
+  simp [runTx, exec, resolve, CallHdr.unfunded, runPre, runClosure, runInner, St.keeper, St.poke, St.enter, hdr0, errAct, fwdGas, keepGas,
     St.revertTo, undoAll, commit, St.addLogs, RunShape.tidy]
 
 /-- … and also when the action succeeds and an enclosing frame reverts, caught by its caller: the transaction succeeds,
@@ -208,7 +222,7 @@ the action's own effect `f` is undone, the earlier write stays -/
 theorem outer_write_survives_caught_revert (v : View N) (f out : N → N) :
     runTx 5 1000 [.call (hdr0 true) [.pre (hdr0 false) 0 { RunShape.tidy with outerBefore := true } out [] (okAct f),
         .revert 0]] v = (.ok, { v with native := out v.native }, 1000) := by
-  simp [runTx, exec, resolve, runPre, runClosure, runInner, St.keeper, St.poke, St.enter, hdr0, okAct, fwdGas, keepGas,
+  simp [runTx, exec, resolve, CallHdr.unfunded, runPre, runClosure, runInner, St.keeper, St.poke, St.enter, hdr0, okAct, fwdGas, keepGas,
     St.revertTo, undoAll, undo, commit, St.addLogs, RunShape.tidy]
 
 /-- the SAME write made AFTER the native action is undone together with it: only the order of the two statements of
@@ -216,7 +230,7 @@ theorem outer_write_survives_caught_revert (v : View N) (f out : N → N) :
 theorem outer_write_after_action_is_undone (v : View N) (f out : N → N) :
     runTx 5 1000 [.call (hdr0 true) [.pre (hdr0 false) 0 { RunShape.tidy with outerAfter := true } out [] (okAct f),
         .revert 0]] v = (.ok, v, 1000) := by
-  simp [runTx, exec, resolve, runPre, runClosure, runInner, St.keeper, St.poke, St.enter, hdr0, okAct, fwdGas, keepGas,
+  simp [runTx, exec, resolve, CallHdr.unfunded, runPre, runClosure, runInner, St.keeper, St.poke, St.enter, hdr0, okAct, fwdGas, keepGas,
     St.revertTo, undoAll, undo, commit, St.addLogs, RunShape.tidy]
 
 /-- `recovers`: the keeper part panics after half-writing the store (a store gas meter running out, say); a deferred
@@ -225,13 +239,13 @@ neither restored its snapshot nor journaled it: the call fails, the transaction 
 theorem recovered_panic_survives_failed_tx (v : View N) (f : N → N) :
     runTx 5 1000 [.pre (hdr0 false) 0 { RunShape.tidy with recovers := true } id [] (panicAct f)] v =
       (.revert, { v with native := f v.native }, 15) := by
-  simp [runTx, exec, resolve, runPre, runClosure, runInner, St.keeper, St.enter, hdr0, panicAct, fwdGas, keepGas,
+  simp [runTx, exec, resolve, CallHdr.unfunded, runPre, runClosure, runInner, St.keeper, St.enter, hdr0, panicAct, fwdGas, keepGas,
     St.revertTo, undoAll, commit, St.addLogs, RunShape.tidy]
 
 /-- without the `recover()` the same panic drops the whole transaction -/
 theorem unrecovered_panic_commits_nothing (v : View N) (f : N → N) :
     runTx 5 1000 [.pre (hdr0 false) 0 RunShape.tidy id [] (panicAct f)] v = (.abort, v, 0) := by
-  simp [runTx, exec, resolve, runPre, runClosure, runInner, St.keeper, St.enter, hdr0, panicAct, fwdGas,
+  simp [runTx, exec, resolve, CallHdr.unfunded, runPre, runClosure, runInner, St.keeper, St.enter, hdr0, panicAct, fwdGas,
     St.addLogs, RunShape.tidy]
 
 /-- `evmAfterWrite`: the closure first writes through its keepers (`f`) and THEN makes an EVM call on the same StateDB
@@ -244,7 +258,7 @@ theorem evm_call_after_keeper_write_survives_caught_revert (v : View N) (f t : N
         [.pre (hdr0 false) 0 { RunShape.tidy with evmAfterWrite := true } id
             [(500, [.call { (hdr0 false : CallHdr N) with xfer := some t } []])] (okAct f),
          .revert 0]] v = (.ok, { v with native := f v.native }, 1000) := by
-  simp [runTx, exec, resolve, runPre, runClosure, runInner, St.keeper, St.enter, St.transfer, hdr0, okAct, fwdGas,
+  simp [runTx, exec, resolve, CallHdr.unfunded, runPre, runClosure, runInner, St.keeper, St.enter, St.transfer, hdr0, okAct, fwdGas,
     keepGas, St.revertTo, undoAll, undo, commit, St.addLogs, RunShape.tidy]
 
 /-- the SAME EVM call made BEFORE the keeper write (the order `handlerERC20Token` has: `transferFrom`, `burn`, then the
@@ -254,7 +268,7 @@ theorem evm_call_before_keeper_write_is_undone (v : View N) (f t : N → N) :
         [.pre (hdr0 false) 0 RunShape.tidy id
             [(500, [.call { (hdr0 false : CallHdr N) with xfer := some t } []])] (okAct f),
          .revert 0]] v = (.ok, v, 1000) := by
-  simp [runTx, exec, resolve, runPre, runClosure, runInner, St.keeper, St.enter, St.transfer, hdr0, okAct, fwdGas,
+  simp [runTx, exec, resolve, CallHdr.unfunded, runPre, runClosure, runInner, St.keeper, St.enter, St.transfer, hdr0, okAct, fwdGas,
     keepGas, St.revertTo, undoAll, undo, commit, St.addLogs, RunShape.tidy]
 
 /-! ## programs whose keeper parts never panic (in particular the two-valued actions of the first version of this model) -/
@@ -359,7 +373,7 @@ example : (runFacts.map (fun rf => rf.paths.length)).sum ≥ 100 := by decide
 /-- a concrete tree: SSTORE; CALL{ precompile(ok); SSTORE; REVERT } swallowed; precompile(ok) — only the last effect survives -/
 def demoAct (id : Nat) : Action (List Nat) := fun _ n => (true, id :: n, [id])
 def demoHdr (sw : Bool) : CallHdr (List Nat) :=
-  { callc := 10, cap := 100000, stip := 0, kind := .call, xfer := none, swallow := sw, pOk := 5, pFail := 5 }
+  { callc := 10, cap := 100000, stip := 0, kind := .call, xfer := none, funded := fun _ => true, swallow := sw, pOk := 5, pFail := 5 }
 def demo : List (Prog (List Nat)) :=
   [.sstore 100 1 7, .call (demoHdr true) [.preA (demoHdr false) 50 (demoAct 1), .sstore 100 2 8, .revert 3],
    .preA (demoHdr false) 50 (demoAct 2)]
